@@ -484,6 +484,84 @@ case("the loop target is read after the loop: it keeps the last YIELDED value, n
         return name, seen
 ''', 1)
 
+case("alias property (getter returns an attribute chain, setter stores into it): every access, augmented ones too, is the chain", '''
+    class Sem:
+        def __init__(self):
+            self._value = 3
+    class Box:
+        def __init__(self):
+            self._calls = 0
+            self._sem = Sem()
+        @property
+        def _counter(self):
+            """Index of the next group."""
+            return self._calls
+        @_counter.setter
+        def _counter(self, value):
+            self._calls = value
+        @property
+        def _room(self):
+            return self._sem._value
+        @_room.setter
+        def _room(self, value):
+            self._sem._value = value
+        def bump(self):
+            name = f"g-{self._counter}"
+            self._counter += 1
+            self._room -= 1
+            self._room = self._room * 2
+            return name, self._calls, self._sem._value
+    def main():
+        b = Box()
+        return b.bump(), b.bump()
+''', 0)
+
+case("yield from in a collected generator, generator expression as its argument, set accumulator, bulk add", '''
+    def _members(groups):
+        for members in groups:
+            yield from members
+    class Pool:
+        def __init__(self):
+            self.table = {"a": {1, 2}, "b": {2, 3}, "c": set()}
+            self.log = []
+        def _get(self, name):
+            self.log.append(name)
+            try:
+                return self.table[name]
+            except KeyError:
+                raise LookupError(name) from None
+        def ids(self, *names):
+            registers = (self._get(name) for name in names)
+            return set(_members(registers))
+    def main():
+        p = Pool()
+        out = [sorted(p.ids("a", "b")), sorted(p.ids()), sorted(p.ids("c", "a"))]
+        try:
+            p.ids("a", "zz", "b")
+        except LookupError as e:
+            out.append(("err", str(e)))
+        return out, p.log
+''', 1)
+
+case("for over a generator expression with a condition; the body continues and breaks", '''
+    def main():
+        out = []
+        seen = []
+        def f(x):
+            seen.append(x)
+            return x * 10
+        for v in (f(x) for x in range(8) if x % 2):
+            if v == 30:
+                continue
+            if v == 70:
+                break
+            out.append(v)
+        x = "outer"
+        for a, b in ((i, x) for i in range(2)):
+            out.append((a, b))
+        return out, seen, x
+''', 0)
+
 # a generator imported from a sibling module (offered to normalise() by the program loader)
 IMPORTED = textwrap.dedent('''
     def pop_until_empty(ids):
